@@ -157,6 +157,7 @@ pub fn write_replay(path: &Path, v: &Violation, plan: &Plan, events: &[String]) 
         "property": v.property, "oracle": v.oracle, "key": v.key, "detail": v.detail, "op_index": v.op_index,
         "verif_seed": plan.verif_seed, "run": plan.run, "profile": plan.profile,
         "plan": plan, "events": events, "repo_head": head, "repo_dirty": dirty,
+        "build": {"max_levels": crate::BUILD_MAX_LEVELS, "tree_heights": crate::BUILD_TREE_HEIGHTS, "min_w": crate::BUILD_MIN_W, "default": crate::BUILD_IS_DEFAULT},
     });
     if let Some(d) = path.parent() {
         let _ = std::fs::create_dir_all(d);
@@ -176,6 +177,15 @@ pub fn replay(path: &str) -> i32 {
     };
     let j: Value = serde_json::from_str(&s).expect("replay file is not JSON");
     let plan: Plan = serde_json::from_value(j["plan"].clone()).expect("replay file has no plan");
+    if let Some(b) = j.get("build") {
+        let same = b["max_levels"].as_u64() == Some(crate::BUILD_MAX_LEVELS as u64)
+            && b["tree_heights"].as_array().map(|a| a.iter().filter_map(|x| x.as_u64()).map(|x| x as u32).collect::<Vec<_>>()) == Some(crate::BUILD_TREE_HEIGHTS.to_vec())
+            && b["min_w"].as_array().map(|a| a.iter().filter_map(|x| x.as_u64()).map(|x| x as u32).collect::<Vec<_>>()) == Some(crate::BUILD_MIN_W.to_vec());
+        if !same {
+            eprintln!("this binary was built with other HBS_LMS_* knobs than the replay file needs ({}); use ./check replay, which rebuilds accordingly", b);
+            return 3;
+        }
+    }
     let property = j["property"].as_str().unwrap_or("").to_string();
     let key = j["key"].as_str().unwrap_or("").to_string();
     let rep = run_plan(&plan, true);
